@@ -242,6 +242,10 @@ Definition param_fields (fs : list field) (a : list bytes) (q : bool) : list fie
   | x :: r => fold_left (fun acc y => acc ++ [[(y, q)]]) r (join_last fs x q)
   end.
 
+(* the content of a double-quoted part consists of $@ (${@}) expansions only *)
+Definition only_at (v : list wpart) : bool :=
+  negb (Nat.eqb (length v) 0) && forallb (fun p => match p with WParam n op _ => beqb n s_at && beqb op [] | _ => false end) v.
+
 Definition st := (env * list field)%type.
 
 Section WithUsers.
@@ -282,6 +286,8 @@ Section WithUsers.
           | _ :: _ => Panic 135
           end
         else if tok =? 34 then
+          if only_at value && Nat.leb (length (args e)) 1 then expand_parts fuel' e rest mode false fs   (* "$@" without positional parameters: no field *)
+          else
           match expand fuel' e value (N.lor (N.land mode mArith) mQuote) with
           | Ok (e1, w) => expand_parts fuel' e1 rest mode false (merge_fields fs w)
           | Err x => Err x | Panic p => Panic p | OutOfFuel => OutOfFuel
